@@ -42,6 +42,10 @@ func checkC04(r *core.Run) {
 	ruleWithdrawClass(r)
 	r.Rule("T-append-fresh: at every WorkerAppend the shard's CreatedAt was set to the current height on every path before (the booking pays price x size x (height - CreatedAt) of back-pay)")
 	ruleAppendFresh(r, "C04")
+	r.Rule("T-replica-dec: replica reduction refunds exactly the replicas that are still waiting")
+	ruleReplicaGiveUp(r)
+	r.Rule("T-price-dur: an order record's Amount is a product containing the Duration (and Replica, Size) stored in the same record")
+	rulePriceDuration(r, "sao/keeper.msgServer.Store", "sao/keeper.msgServer.Renew")
 
 	// ---- Store
 	if fn := r.Func("T-charge", "sao/keeper.msgServer.Store"); fn != nil {
@@ -233,6 +237,33 @@ func checkC05(r *core.Run) {
 		check("refund succeeded before success", okRef, "every success return is dominated by RefundOrder(orderId) == nil")
 		check("model rolled back before success", len(roll) > 0 && avoidTo(roll, succ), "RollbackMeta lies on every success path")
 		check("order removed before success", len(rem) > 0 && avoidTo(rem, succ), "RemoveOrder lies on every success path")
+		// totality: the only way CancelOrder fails is a failed refund — every return, also an error return, comes
+		// after the refund was attempted. Its callers (Cancel, the timeout give-up branch) have already removed the
+		// order's shards and do not re-schedule on error, so any earlier exit strands the payer's money.
+		allRets := map[*ssa.BasicBlock]bool{}
+		for _, b := range fn.Blocks {
+			if isReturnBlock(b) {
+				allRets[b] = true
+			}
+		}
+		{
+			key := core.Key("T-cancel", co, "no exit before the refund is attempted")
+			// an exit because the order itself does not exist is harmless (nothing to refund)
+			early := func(b *ssa.BasicBlock) bool {
+				if !allRets[b] {
+					return false
+				}
+				if ok, _ := ck.MustPass(b, []guard.Atom{guard.False("*" + fGetOrder + "(#2)#1")}); ok {
+					return false
+				}
+				return true
+			}
+			if len(refund) > 0 && forwardAvoid(fn.Blocks[0], refund, nil, early) == nil {
+				r.Discharge("T-cancel", key, r.P.FuncPos(fn), "every return of CancelOrder (success or error) lies after the RefundOrder call")
+			} else {
+				r.Violate("T-cancel", key, r.P.FuncPos(fn), "CancelOrder can return (with an error) before attempting the refund: its callers have already removed the order's shards and do not retry, so the order stays on chain unrefunded — e.g. when the data model was already deleted (terminated or expired) while a never-started order was still open")
+			}
+		}
 		check("refund precedes rollback and removal", avoidTo(refund, roll) && avoidTo(refund, rem), "nothing is rolled back or removed before the refund was attempted")
 		check("rollback precedes removal", avoidTo(roll, rem) || sameBlockOrder(fn, "model/keeper.Keeper.RollbackMeta", "order/keeper.Keeper.RemoveOrder", r), "RollbackMeta comes before RemoveOrder")
 		evalArgAll(r, "T-cancel", co, "order/keeper.Keeper.RefundOrder", 0, []string{"#2"}, "the order refunded is the one being cancelled")
@@ -455,4 +486,74 @@ func ruleRefundBooked(r *core.Run) {
 		}
 	}
 	r.Floor("market_refund_sites", n, 1)
+}
+
+// rulePriceDuration (T-price-dur): where an order record is built with both a
+// Duration and an Amount, the amount is a product that contains that very
+// duration (and the record's replica count and size): the payer is charged for
+// the period the order is recorded — and the providers are paid — for.
+func rulePriceDuration(r *core.Run, fnNames ...string) {
+	const id = "T-price-dur"
+	n := 0
+	for _, fnName := range fnNames {
+		fn := r.Func(id, fnName)
+		if fn == nil {
+			continue
+		}
+		res := r.Resolver(fn)
+		type rec struct{ dur, amt, rep, size *ssa.Store }
+		recs := map[ssa.Value]*rec{}
+		for _, b := range fn.Blocks {
+			for _, ins := range b.Instrs {
+				st, ok := ins.(*ssa.Store)
+				if !ok {
+					continue
+				}
+				fa, ok := st.Addr.(*ssa.FieldAddr)
+				if !ok || shortTypeName(fa.X.Type()) != "order/types.Order" {
+					continue
+				}
+				x := recs[fa.X]
+				if x == nil {
+					x = &rec{}
+					recs[fa.X] = x
+				}
+				switch fieldNameT(fa.X.Type(), fa.Field) {
+				case "Duration":
+					x.dur = st
+				case "Amount":
+					x.amt = st
+				case "Replica":
+					x.rep = st
+				case "Size_":
+					x.size = st
+				}
+			}
+		}
+		cnt := 0
+		for _, x := range recs {
+			if x.dur == nil || x.amt == nil {
+				continue
+			}
+			n++
+			cnt++
+			amt := normT(res.Of(x.amt.Val).String())
+			for _, f := range []struct {
+				name string
+				st   *ssa.Store
+			}{{"Duration", x.dur}} {
+				if f.st == nil {
+					continue
+				}
+				t := normT(res.Of(f.st.Val).String())
+				key := core.Key(id, fnName, fmt.Sprintf("order record#%d", cnt), "amount multiplies the recorded "+f.name)
+				if strings.Contains(amt, "int64("+t+")") || strings.Contains(amt, ","+t+")") {
+					r.Discharge(id, key, r.P.Pos(x.amt.Pos()), "Order.Amount is a product containing the value stored as Order."+f.name)
+				} else {
+					r.Violate(id, key, r.P.Pos(x.amt.Pos()), fmt.Sprintf("%s builds an order whose Amount (%s) does not multiply the value recorded as Order.%s (%s): the payer is charged for a different %s than the order — and the providers' income — is recorded for, so income + refunds no longer equal the charge", fnName, shorten(amt), f.name, shorten(t), strings.ToLower(strings.TrimSuffix(f.name, "_"))))
+				}
+			}
+		}
+	}
+	r.Floor("priced_order_records", n, 1)
 }
